@@ -39,13 +39,13 @@ type opResult struct {
 // op is one public operation, parameterised by a stop position: stop<=0 means
 // run to the end; stop=k means the callback returns "done" at its k-th call.
 type op struct {
-	name     string
-	kind     string // API entry point name
-	highLvl  bool   // takes the lock itself
-	canStop  bool
-	run      func(h *handle, stop int) opResult
-	table    string
-	index    string
+	name    string
+	kind    string // API entry point name
+	highLvl bool   // takes the lock itself
+	canStop bool
+	run     func(h *handle, stop int) opResult
+	table   string
+	index   string
 }
 
 // collector builds callbacks that record rows and implement the stop position.
